@@ -68,7 +68,7 @@ struct App {
     bool          t_bool;
     int           t_int;
     // rOption
-    int           o_plain, o_bound, o_sparse, o_many, o_neg, o_defsym;
+    int           o_plain, o_bound, o_sparse, o_many, o_neg, o_defsym, o_after, o_hi;
     Wave          o_enum;
     // rString
     PA_ARR(char, s_one, 1);
@@ -169,6 +169,8 @@ const rtosc::Ports App::ports = {
     rOption(o_many, rOptions(oa, ob, oc, od, oe, of, og, oh, oi, oj, ok, ol, om, on, oo, op, oq, or_, os, ot, ou, ov, ow, ox), "24 symbols: the longest list rOptions takes"),
     rOption(o_neg, rOpt(-2, below) rOpt(0, zero) rOpt(3, above), "a map with a negative index"),
     rOption(o_defsym, rDefault(saw), rShort("square"), rOptions(sine, saw, square), "properties whose values spell a symbol, declared in front of the map"),
+    rOption(o_after, rOptions(sine, saw, square), rDefault(saw), rShort("sine"), "the same properties declared behind the map"),
+    rOption(o_hi, rOpt(127, top) rOpt(128, over) rOpt(1000, far), "indices around and beyond the char range"),
 
     rString(s_one, 1, "capacity 1"),
     rString(s_two, 2, "capacity 2"),
@@ -269,6 +271,7 @@ inline OptMap opt_colours() { return {{0, "red"}, {1, "green"}, {2, "blue"}, {3,
 inline OptMap opt_waves() { return {{0, "sine"}, {1, "saw"}, {2, "square"}}; }
 inline OptMap opt_sparse() { return {{1, "lo"}, {4, "mid"}, {9, "hi"}}; }
 inline OptMap opt_neg() { return {{-2, "below"}, {0, "zero"}, {3, "above"}}; }
+inline OptMap opt_hi() { return {{127, "top"}, {128, "over"}, {1000, "far"}}; }
 inline OptMap opt_many() { OptMap m; const char *n[24] = {"oa", "ob", "oc", "od", "oe", "of", "og", "oh", "oi", "oj", "ok", "ol", "om", "on", "oo", "op", "oq", "or_", "os", "ot", "ou", "ov", "ow", "ox"}; for(int i = 0; i < 24; ++i) m.push_back({i, n[i]}); return m; }
 
 #define PA_OFF(field) offsetof(App, field)
@@ -332,6 +335,8 @@ inline const std::vector<PortDesc> &describe()
     v.push_back({"/o_many",   K_OPTION, ST_INT,  "", "", 0, 0, opt_many(), PA_OFF(o_many), "icS"});
     v.push_back({"/o_neg",    K_OPTION, ST_INT,  "", "", 0, 0, opt_neg(), PA_OFF(o_neg), "icS"});
     v.push_back({"/o_defsym", K_OPTION, ST_INT,  "", "", 0, 0, opt_waves(), PA_OFF(o_defsym), "icS"});
+    v.push_back({"/o_after",  K_OPTION, ST_INT,  "", "", 0, 0, opt_waves(), PA_OFF(o_after), "icS"});
+    v.push_back({"/o_hi",     K_OPTION, ST_INT,  "", "", 0, 0, opt_hi(), PA_OFF(o_hi), "icS"});
 
     v.push_back({"/s_one",     K_STRING, ST_STR, "", "", 0, 1, {}, PA_OFF(s_one), "s"});
     v.push_back({"/s_two",     K_STRING, ST_STR, "", "", 0, 2, {}, PA_OFF(s_two), "s"});
@@ -399,7 +404,7 @@ inline void init_app(App &a)
     a.pf_none = 1.5f; a.pf_midi = 64.5f; a.pf_sym = -1.25f; a.pf_neg = -3.5f; a.pf_frac = 1.125f; a.pf_min = 7.5f; a.pf_max = -7.5f;
     a.pf_dec = 0.5f; a.pd_frac = 1.125;
     a.t_bool = false; a.t_int = 1;
-    a.o_plain = 1; a.o_bound = 1; a.o_sparse = 4; a.o_enum = W_SAW; a.o_many = 3; a.o_neg = 3; a.o_defsym = 2;
+    a.o_plain = 1; a.o_bound = 1; a.o_sparse = 4; a.o_enum = W_SAW; a.o_many = 3; a.o_neg = 3; a.o_defsym = 2; a.o_after = 0; a.o_hi = 128;
     PA_G(a, s_ptr_store); memset(a.s_ptr_store, '~', sizeof a.s_ptr_store); strcpy(a.s_ptr_store, "pointed"); a.s_ptr = a.s_ptr_store;
     PA_G(a, aiSpecial); a.aiSpecial[0] = 7; a.aiSpecial[1] = 8; a.pi_special = 5; a.pf_special = 1.0f; a.pi_big24 = 12; a.pi_big31 = -9; a.pi_bigmax = 77;
     PA_G(a, s_one); PA_G(a, s_two); PA_G(a, s_eight); PA_G(a, s_sixteen); PA_G(a, s_roomy);
